@@ -3,7 +3,7 @@ Require Extraction.
 Require Import ExtrOcamlBasic.
 From Algo.C01 Require Import Model.
 Extraction Language OCaml.
-Extraction "model.ml" step run build Height trav_list inorder first_match
+Extraction "model.ml" step run build SelectMatch PartitionMatch Height trav_list inorder first_match
   shape_from_traversals shape_height shape_balanced shape_of
   avl_check rb_check rb_colors_ok black_height sizes_check rb_height_bound
   cmp_asc cmp_desc cmp_diff cmp_rdiff cmp_diff3 cmp_half size height nodes.
